@@ -217,6 +217,26 @@ def check_component(ctx, cell, case):
         if not same(o, full[p]):
             ctx.fail("C20.a_permutation", cell, {**ccase, "perm": p}, None, None, "result depends on a member's position in the batch", CHK)
             break
+    # other input dtypes of the same values (bit-valued inputs): same answers, input never modified
+    if comp["dtype"] == "bits":
+        import torch
+        for dt in (torch.int32, torch.int64, torch.float64):
+            xt = torch.from_numpy(np.ascontiguousarray(X)).to(dt)
+            x0 = xt.clone()
+            try:
+                with quiet():
+                    od = fn(xt)
+                    od2 = fn(xt)
+            except Exception:
+                ctx.cls("dtype_rejected_" + str(dt).split(".")[-1])
+                continue
+            od = (od[0] if isinstance(od, tuple) else od).detach().to(torch.float64).numpy()
+            od2 = (od2[0] if isinstance(od2, tuple) else od2).detach().to(torch.float64).numpy()
+            ctx.ev()
+            dcase = {**ccase, "dtype": str(dt)}
+            ctx.check(bool(torch.equal(xt, x0)), "C20.d_input_unmodified", cell, dcase, None, None, "component modified its input tensor", CHK)
+            ctx.check(same(od, full.astype(np.float64)), "C20.a_dtype_independent", cell, dcase, None, None, "the same bits in another dtype give different values", CHK)
+            ctx.check(same(od2, od), "C20.c_repeatable", cell, dcase, None, None, "a second identical call gives a different answer", CHK)
     # repeated call
     o2 = call(fn, X)
     ctx.check(same(o2, full), "C20.c_repeatable", cell, ccase, None, None, "a second identical call gives a different answer", CHK)
@@ -287,11 +307,14 @@ def unit_stateful(ctx, names, examples):
             def call_batch(self, seed, rows):
                 rng = np.random.RandomState(seed)
                 X = self.obj["gen"](rng, rows)
-                got = call(self.obj["fn"], X)
                 self.hist.append([seed, rows])
                 _LAST["hist"] = list(self.hist)
-                fresh = factory()
-                exp = call(fresh["fn"], fresh["gen"](np.random.RandomState(seed), rows))
+                try:
+                    got = call(self.obj["fn"], X)
+                    fresh = factory()
+                    exp = call(fresh["fn"], fresh["gen"](np.random.RandomState(seed), rows))
+                except Exception as e:  # noqa: BLE001  library raised on a valid batch: a failure of the component, not of the harness
+                    raise AssertionError(f"component raised {type(e).__name__}: {str(e)[:100]}")
                 assert same(got, exp), "answer depends on earlier calls on the same object"
         try:
             run_state_machine_as_test(hypothesis.seed(ctx.seed * 13 + len(name))(Machine),
